@@ -51,6 +51,9 @@ pub struct NodeCfg {
     /// a request-response protocol (the only public way to a protocol with fallback names):
     /// (main name, fallback names)
     pub rr: Option<(String, Vec<String>)>,
+    /// inbound substreams of the user protocols are kept (object alive, only read from) after the
+    /// remote closed its write side, until `ReleaseInbound`
+    pub keep_eof: bool,
 }
 
 impl NodeCfg {
@@ -67,6 +70,7 @@ impl NodeCfg {
             transport: "tcp".into(),
             quic_idle: Duration::from_secs(5),
             rr: None,
+            keep_eof: false,
         }
     }
 }
@@ -87,6 +91,12 @@ pub enum ProtoCmd {
     Open { peer: PeerId, mode: OpenMode, called: Option<oneshot::Sender<Result<f64, String>>>, resp: oneshot::Sender<Result<f64, String>> },
     /// drop one held outbound substream
     DropOne { id: usize, resp: oneshot::Sender<bool> },
+    /// half-close a held outbound substream by reference (the object stays): `sink` =
+    /// `futures::SinkExt::close(&mut s)`, otherwise `tokio::io::AsyncWriteExt::shutdown(&mut s)`
+    HalfClose { id: usize, sink: bool, resp: oneshot::Sender<Result<(), String>> },
+    /// let go of the inbound substream kept after the remote's end of stream (`keep_eof`) whose opener
+    /// tagged it with substream id `sid` (`None`: all of them)
+    ReleaseInbound { sid: Option<usize> },
     ForceClose { peer: PeerId, resp: oneshot::Sender<Result<(), String>> },
     /// drop every substream this protocol holds (held outbound ones and inbound echo servers)
     DropHeld { resp: oneshot::Sender<usize> },
@@ -113,6 +123,7 @@ struct Proto {
     q: String,
     log: Log,
     rx: mpsc::Receiver<ProtoCmd>,
+    keep_eof: bool,
 }
 
 type BoxFut = Pin<Box<dyn Future<Output = ()> + Send>>;
@@ -134,6 +145,8 @@ impl UserProtocol for Proto {
         // `run` drops every substream of the protocol
         let mut jobs: FuturesUnordered<BoxFut> = FuturesUnordered::new();
         let mut paused = false;
+        let keep_eof = self.keep_eof;
+        let (release_tx, release_rx) = tokio::sync::watch::channel(std::collections::HashSet::<u64>::new());
         loop {
             tokio::select! {
                 ev = service.next(), if !paused => {
@@ -159,12 +172,31 @@ impl UserProtocol for Proto {
                                 let mut s = substream;
                                 let lg = log.clone();
                                 let (o2, n2, q2) = (obs.clone(), node.clone(), q.clone());
+                                let mut release = release_rx.clone();
                                 jobs.push(Box::pin(async move {
+                                    // a holder tags its substream with its own substream id (first frame, 8 bytes)
+                                    let mut tag = u64::MAX - 1;
                                     while let Some(Ok(b)) = s.next().await {
+                                        if b.len() == 8 && tag == u64::MAX - 1 {
+                                            tag = u64::from_be_bytes(b[..8].try_into().unwrap());
+                                        }
                                         if s.send_framed(b.freeze()).await.is_err() {
                                             break;
                                         }
                                     }
+                                    if keep_eof {
+                                        // the remote closed its write side: the object is kept (read-only)
+                                        lg.push(json!({"e": "sub_in_eof", "o": o2, "n": n2, "q": q2, "tag": tag}));
+                                        loop {
+                                            if { let r = release.borrow_and_update(); r.contains(&tag) || r.contains(&u64::MAX) } {
+                                                break;
+                                            }
+                                            if release.changed().await.is_err() {
+                                                break;
+                                            }
+                                        }
+                                    }
+                                    drop(s);
                                     lg.push(json!({"e": "sub_in_end", "o": o2, "n": n2, "q": q2}));
                                 }));
                             }
@@ -173,6 +205,9 @@ impl UserProtocol for Proto {
                                 log.push(json!({"e": "sub_out", "o": obs, "n": node, "q": q, "id": id.verif_as_usize()}));
                                 match ent {
                                     Some((OpenMode::Hold, resp)) => {
+                                        let mut substream = substream;
+                                        // tag the substream for the remote (see `ReleaseInbound`)
+                                        let _ = tokio::time::timeout(Duration::from_secs(1), substream.send_framed(Bytes::copy_from_slice(&(id.verif_as_usize() as u64).to_be_bytes()))).await;
                                         held.push((id.verif_as_usize(), substream));
                                         if let Some(r) = resp { let _ = r.send(Ok(id.verif_as_usize() as f64)); }
                                     }
@@ -231,6 +266,25 @@ impl UserProtocol for Proto {
                             let n = held.len();
                             held.retain(|(i, _)| *i != id);
                             let _ = resp.send(held.len() < n);
+                        }
+                        ProtoCmd::HalfClose { id, sink, resp } => {
+                            let r = match held.iter_mut().find(|(i, _)| *i == id) {
+                                None => Err("no such substream".to_string()),
+                                Some((_, s)) => {
+                                    let fut = async {
+                                        if sink {
+                                            futures::SinkExt::close(s).await.map_err(|e| format!("{e:?}"))
+                                        } else {
+                                            tokio::io::AsyncWriteExt::shutdown(s).await.map_err(|e| format!("{e:?}"))
+                                        }
+                                    };
+                                    tokio::time::timeout(Duration::from_secs(2), fut).await.unwrap_or(Err("timeout".into()))
+                                }
+                            };
+                            let _ = resp.send(r);
+                        }
+                        ProtoCmd::ReleaseInbound { sid } => {
+                            release_tx.send_modify(|g| { g.insert(sid.map(|x| x as u64).unwrap_or(u64::MAX)); });
                         }
                         ProtoCmd::ForceClose { peer, resp } => {
                             let r = service.force_close(peer).map_err(|e| format!("{e:?}"));
@@ -327,6 +381,7 @@ impl Node {
                 q: q.clone(),
                 log: log.clone(),
                 rx,
+                keep_eof: cfg.keep_eof,
             }));
         }
         let mut rr = None;
@@ -454,6 +509,13 @@ impl Node {
             return false;
         }
         rx.await.unwrap_or(false)
+    }
+
+    pub async fn half_close(&self, q: &str, id: usize, sink: bool) -> Result<(), String> {
+        let (tx, rx) = oneshot::channel();
+        let p = self.protos.get(q).ok_or("no such protocol")?;
+        p.send(ProtoCmd::HalfClose { id, sink, resp: tx }).await.map_err(|_| "protocol gone".to_string())?;
+        rx.await.map_err(|_| "protocol gone".to_string())?
     }
 
     pub async fn force_close(&self, q: &str, peer: PeerId) -> Result<(), String> {
